@@ -33,6 +33,7 @@ fn run(a: &[String]) -> String {
         "frame_depth" => scenarios::frame_depth(&a[1], &a[2]),
         "depth_limit" => scenarios::depth_limit(),
         "inspector_logs_inputs" => scenarios_r4::inspector_logs_inputs(),
+        "reuse_spec_change" => scenarios_r4::reuse_spec_change(),
         "reward_differential" => scenarios::reward_differential(),
         "handler_flag" => scenarios::handler_flag(&a[1], a[2] == "true"),
         "has_storage_layer" => scenarios::has_storage_layer(&a[1]),
